@@ -255,6 +255,31 @@ def gen_case(r, family, nmax):
     return sp
 
 
+def scale_boundary_cases(r, n):
+    """samples on a line, the farthest one at distance nextafter^j(1.3^e) (j in -2..3) from sample 0, the others inside;
+    coordinates are integers scaled by one power of two (exact mode)"""
+    import math
+    out = []
+    for _ in range(n):
+        e = r.range(0, 120)
+        d = math.pow(1.3, e)
+        j = r.range(-2, 3)
+        for _ in range(abs(j)):
+            d = math.nextafter(d, math.inf if j > 0 else 0.0)
+        m, ex = math.frexp(d)
+        mi = int(math.ldexp(m, 53))
+        sh = 53 - ex
+        if sh < 0 or sh > 1000:
+            continue
+        npts = r.range(2, 6)
+        pts = [[0], [mi]] + [[r.below(mi)] for _ in range(npts - 2)]
+        if r.chance(1, 2) and npts > 2:          # the farthest sample need not come second
+            pts[1], pts[-1] = pts[-1], pts[1]
+        for method in ("covertree", "brute"):
+            out.append({"method": method, "k": r.range(1, npts - 1), "cb": "plain", "metric": "L1", "sh": sh, "pts": pts, "vs": [0]})
+    return out
+
+
 def corpus_cases(prop, topic):
     out = []
     cdir = os.path.join(vlib.ROOT, "corpus", prop)
@@ -379,6 +404,10 @@ def correspond(ctx):
             dvv.append({"cb": "plain", "metric": rr.choice(["L1", "Linf"]), "pts": G.pts_volume(rr, npts),
                         "k": rr.choice([1, 2, 3, 5, 8])})
         default_vantage_leg(ctx, dv_binary, dvv)
+    # boundary of the cover tree's scale functions: the largest distance from the first sample is one of the doubles
+    # next to a power of 1.3, where get_scale = ceil(log d / log 1.3) and dist_of_scale = pow(1.3, s) disagree by
+    # rounding — hypothesis H2 (topCovered) of batchCreate_wf is about exactly these values
+    judge(ctx, binary, scale_boundary_cases(r.fork(), 60 if quick else 1500), "cover-scale-boundary")
     # exhaustive k for small N
     small = []
     for n in range(24 if quick else 250):
@@ -433,7 +462,7 @@ def correspond(ctx):
     if not quick:
         isomap_leg(ctx, 400, "c02")
     ctx.cov["rule"] = ("exact-mode sample sets (integer lattices incl. the 7x7 grid, duplicated samples, clusters with 10^6 scale "
-                       "ratio, dyadic generic data in 1..50 dims, tree/path/ultrametric integer matrices, powers-of-two "
+                       "ratio, collinear sets whose diameter is a double next to a power of 1.3 (cover-tree scale boundary), dyadic generic data in 1..50 dims, tree/path/ultrametric integer matrices, powers-of-two "
                        "ultrametrics up to 2^60, PSD integer kernels with perfect-square induced distances) x {Brute, VpTree, "
                        "CoverTree} x k in [1,N-1], N in 2..%d plus N up to %d against the O(N^2) specification; distinct by "
                        "case text; non-trivial = N >= 3" % (nmax, sizes[-1]))
